@@ -23,7 +23,7 @@ TECHNIQUE = ('Hypothesis-generated histories (1-3 run() calls, trace counts / co
              'history observation through an overridden public compute_results(); differential oracle = a fresh attack without convergence step on each prefix; point-spacing invariant over the logged history')
 RULE = ('case = (attack kind, precision, N per run in 1..80, container batch size int, convergence_step in {1, below/equal/above the batch size, above N, not dividing N}, 1..3 runs, integer-valued or real traces). '
         'Non-trivial = at least 2 convergence columns and (step does not divide the total, or several runs); distinct = digest of the case.')
-LEVEL_TEXT = ('Columns are compared with fresh prefix attacks (bit-exact for integer-valued data whose sums are exact; 1e-9 relative for real-valued data in float64; template scores, which sum float terms per batch, 1e-9 / 2e-4 relative in float64 / float32); the number of columns must equal the number of distinct points, points must be '
+LEVEL_TEXT = ('Columns are compared with fresh prefix attacks (1e-9 relative in float64, 2e-4 in float32 - on this tree integer-valued data give bit-identical columns; template scores, which sum float terms per batch, 1e-9 / 2e-4 relative in float64 / float32); the number of columns must equal the number of distinct points, points must be '
               'strictly increasing, end at the total, each be at least one step after the previous regular point unless it is the remainder at the end of a run, the last column must equal the final scores, and results/scores must equal those of an attack '
               'without convergence step. The largest gap between points is reported, not asserted (the statement gives no upper bound).')
 LEVEL_NOTE = 'trusted: a fresh attack run once on a prefix (C02/C03/C04 territory)'
@@ -93,8 +93,9 @@ def _same(a, b, exact, rtol=1e-9):
     a, b = np.asarray(a), np.asarray(b)
     if a.shape != b.shape:
         return False
-    if exact:
-        return np.array_equal(a, b, equal_nan=True)
+    if exact and np.array_equal(a, b, equal_nan=True):
+        return True
+    # not bit-identical: the statement only promises equality up to the rounding of the precision (prefix attack and incremental run batch differently)
     with np.errstate(invalid='ignore'):
         return bool(np.all((np.abs(a - b) <= rtol * (np.abs(b) + 1.0)) | (np.isnan(a) & np.isnan(b)) | (a == b)))
 
